@@ -4,7 +4,17 @@ FUNCTIONS = ["get_conseq_entry_count"]
 TRUSTED = []
 ASSUMPTIONS = []
 EXPLANATION = ""
+FP = {"do_block": "stub_do_block", "write_at": "stub_write_at",
+      "get_size": "stub_get_size", "destroy": "stub_destroy", "copy": "stub_copy"}
+
 HARNESSES = [
+    dict(name="meta_flush", file="meta_flush.c", label="proved", fp=FP,
+         unwind=34, malloc_fail=True, timeout=170,
+         cases=[dict(id="all", tier="quick")]),
+    dict(name="inode_kind", file="inode_kind.c", label="proved", unwind=70,
+         nochecks=["--conversion-check"], timeout=120,
+         cases=[dict(id="type%d" % t, defines={"TYPE": t}, tier="quick")
+                for t in range(0, 15)]),
     dict(name="dir_run", file="dir_run.c", loops=["get_conseq_entry_count"],
          label="proved", unwind=259, timeout=600,
          cases=[dict(id="all", tier="quick")]),
